@@ -102,7 +102,7 @@ func ErrClass(err error) string {
 	}
 	s := err.Error()
 	for _, k := range []string{"message authentication failed", "bad record MAC", "record overflow", "unexpected message",
-		"unsupported SSLv2", "oversized record", "first record does not look like a TLS handshake", "protocol version", "decode error", "internal error", "stream reset", "connection reset"} {
+		"unsupported SSLv2", "oversized record", "received record with version", "first record does not look like a TLS handshake", "protocol version", "decode error", "internal error", "stream reset", "connection reset"} {
 		if strings.Contains(s, k) {
 			return strings.ReplaceAll(k, " ", "-")
 		}
